@@ -36,10 +36,21 @@ type invocation struct {
 	Components bool
 	Client     bool
 	APIHandler bool
+	// the state machine also varies these (zero value = what the exhaustive part uses:
+	// --donotedit=true, cors off)
+	NoHeader bool // --donotedit=false
+	Cors     bool // cors: {enable: true} in the config file
 }
 
 func (iv invocation) String() string {
-	return fmt.Sprintf("{components:%v client:%v api-handler:%v}", iv.Components, iv.Client, iv.APIHandler)
+	s := fmt.Sprintf("{components:%v client:%v api-handler:%v", iv.Components, iv.Client, iv.APIHandler)
+	if iv.NoHeader {
+		s += " donotedit:false"
+	}
+	if iv.Cors {
+		s += " cors:true"
+	}
+	return s + "}"
 }
 
 func allInvocations() []invocation {
@@ -47,7 +58,7 @@ func allInvocations() []invocation {
 	for _, a := range []bool{false, true} {
 		for _, b := range []bool{false, true} {
 			for _, c := range []bool{false, true} {
-				out = append(out, invocation{a, b, c})
+				out = append(out, invocation{Components: a, Client: b, APIHandler: c})
 			}
 		}
 	}
@@ -109,7 +120,7 @@ func (iv invocation) spec(variant int) []byte {
 }
 
 func (iv invocation) cfg() inproc.Config {
-	return inproc.Config{Client: iv.Client, NoAPIHandler: !iv.APIHandler, DoNotEdit: true}
+	return inproc.Config{Client: iv.Client, NoAPIHandler: !iv.APIHandler, DoNotEdit: !iv.NoHeader, Cors: iv.Cors}
 }
 
 func readOwned(dir string) map[string][]byte {
@@ -155,8 +166,25 @@ func (cr *c19Runner) run(iv invocation, variant int, outDir string, useCLI bool)
 		cfg := iv.cfg()
 		specFile := filepath.Join(work, cfg.SpecName())
 		os.WriteFile(specFile, iv.spec(variant), 0o644)
-		cmd := exec.Command(cr.cli, cfg.CLIArgs(specFile, filepath.Join(work, ".goag.yaml"), outDir)...)
+		cfgFile := filepath.Join(work, ".goag.yaml")
+		if y := cfg.GoagYAML(); y != nil {
+			os.WriteFile(cfgFile, y, 0o644)
+		}
+		cmd := exec.Command(cr.cli, cfg.CLIArgs(specFile, cfgFile, outDir)...)
 		cmd.Dir = work
+		// every other CLI run names the output directory relative to the working directory
+		// ("", ".", "./"), as a user standing in it would
+		cr.n++
+		if cr.n%2 == 0 {
+			args := cfg.CLIArgs(specFile, cfgFile, outDir)
+			for i := range args {
+				if args[i] == "--out" && i+1 < len(args) {
+					args[i+1] = []string{"", ".", "./"}[(cr.n/2)%3]
+				}
+			}
+			cmd = exec.Command(cr.cli, args...)
+			cmd.Dir = outDir
+		}
 		if out, err := cmd.CombinedOutput(); err != nil {
 			return fmt.Errorf("cli: %v: %s", err, out)
 		}
@@ -177,7 +205,9 @@ func (cr *c19Runner) freshOf(iv invocation, variant int) (map[string][]byte, err
 	dir := filepath.Join(cr.dir, "fresh")
 	os.RemoveAll(dir)
 	os.MkdirAll(dir, 0o755)
-	if err := cr.run(iv, variant, dir, false); err != nil {
+	// the model run happens in a process of its own when the command is available:
+	// nothing an earlier generation left in this process can reach it
+	if err := cr.run(iv, variant, dir, cr.cli != ""); err != nil {
 		return nil, err
 	}
 	m := readOwned(dir)
@@ -297,6 +327,9 @@ func c19Worker(e *Env) *res.Result {
 		var trace []string
 		steps := 0
 		tampered := false
+		// a fifth of the histories runs every step through the command (separate processes,
+		// output directory named "", "." or "./" relative to the working directory now and then)
+		smViaCLI := cr.cli != "" && rapid.IntRange(0, 4).Draw(t, "history_via_cli") == 0
 		t.Repeat(map[string]func(*rapid.T){
 			"generate": func(t *rapid.T) {
 				if steps >= 8 {
@@ -304,9 +337,11 @@ func c19Worker(e *Env) *res.Result {
 				}
 				steps++
 				iv := rapid.SampledFrom(invs).Draw(t, "invocation")
+				iv.NoHeader = rapid.IntRange(0, 3).Draw(t, "donotedit_false") == 0
+				iv.Cors = rapid.IntRange(0, 3).Draw(t, "cors") == 0
 				variant := rapid.IntRange(0, 2).Draw(t, "variant") + 10*rapid.SampledFrom([]int{0, 0, 1, 1, 2, 3, 3}).Draw(t, "shape")
 				trace = append(trace, fmt.Sprintf("generate %v variant=%d", iv, variant))
-				fail := cr.step(iv, variant, out, users, false)
+				fail := cr.step(iv, variant, out, users, smViaCLI)
 				r.Evaluations++
 				if fail != "" {
 					lastFail = &res.Failure{Property: "C19", Kind: "statemachine", Clause: "model", Detail: fmt.Sprintf("history %v: %s", trace, fail),
